@@ -2,23 +2,7 @@
 //! (jsonwebtoken is types only: token validation is outside every claim).
 #![allow(dead_code, unused_imports, unused_variables, unused_mut, clippy::all)]
 
-/// stand-in for worterbuch/src/config.rs: the one field auth.rs reads
-#[derive(Clone, Debug)]
-pub struct Config {
-    pub auth_token_key: Option<String>,
-}
-
-pub mod auth {
-    include!("/repo/worterbuch/src/auth.rs");
-
-    #[cfg(any(kani, feature = "vreplay"))]
-    mod h {
-        use super::*;
-        include!("/verif/kani/auth/src/h/util.rs");
-        include!("/verif/kani/auth/src/h/c15_gen.rs");
-        include!("/verif/kani/auth/src/h/c15.rs");
-    }
-}
+include!("/verif/kani/auth/src/body.rs");
 
 #[cfg(kani)]
 #[kani::proof]
